@@ -257,8 +257,8 @@ impl StringDecoder for Unreal2StringDecoder {
 
             length = position + 1;
 
-            // Decode as latin1
-            let (result, _, invalid_sequences) = WINDOWS_1252.decode(&data[0 .. position]);
+            // Decode as latin1 (the first byte is the length of the string, not a character)
+            let (result, _, invalid_sequences) = WINDOWS_1252.decode(data.get(1 .. position).unwrap_or_default());
 
             if invalid_sequences {
                 return Err(PacketBad.context("latin1 string contained invalid character(s)"));
